@@ -202,3 +202,607 @@ class BufferCb2(QueueNode):
 
 
 ALL += [BufferUpdate, BufferCb0, BufferCb1, BufferCb2]
+
+
+# --------------------------------------------------------------------------- delay
+class DelayNode(QueueNode):
+    def make_self(self, I):
+        f = self.queue_fields(I)
+        iv = z3.Real('interval')
+        I.st.assume(iv >= 0)
+        f['interval'] = VReal(iv)
+        return f
+
+
+class DelayUpdate(DelayNode):
+    cls = 'delay'
+    method = 'update'
+    start = 0
+    props = ['C02', 'C03', 'C04', 'C05', 'C10', 'C13']
+
+    def clauses(self):
+        return [Clause('C13.enqueues_fifo', ['C02', 'C13', 'C10'], when='return',
+                       text='Q == old(Q) + [pair(x, metadata)] and emitted == []'),
+                Clause('C03.returns_put_future', ['C03'], when='return', text='result == put_future'),
+                Clause('C04.holds_queued_element', ['C04'], when='return', text='delta >= occ(metadata)'),
+                ] + self.segment_clauses()
+
+
+class DelayCb0(DelayNode):
+    cls = 'delay'
+    method = 'cb'
+    start = 0
+    props = ['C02', 'C13']
+
+    def make_locals(self, I, selfv):
+        return {'self': selfv}
+
+    def clauses(self):
+        return [Clause('C13.waits_for_an_item', ['C02', 'C13'], when='yield:1',
+                       text='q_get == 1 and emitted == [] and Q == old(Q)')] + self.segment_clauses()
+
+
+class DelayCb1(DelayNode):
+    cls = 'delay'
+    method = 'cb'
+    start = 1
+    props = ['C02', 'C04', 'C05', 'C10', 'C13']
+    inflight_post = {'yield:2': 'occ(metadata)'}
+    balance_clause = BufferCb1.balance_clause
+
+    def make_locals(self, I, selfv):
+        return {'self': selfv, 'last': VReal(z3.Real('last_l'))}
+
+    def resume(self, I, loc):
+        return self.take_head(I)
+
+    def clauses(self):
+        return [Clause('C13.forwards_head_exactly_once', ['C02', 'C13'], when='yield:2',
+                       text='emitted == [x] and pair(x, metadata) == taken and q_get == 0'),
+                Clause('C10.metadata_travels', ['C10'], when='yield:2', text='emitted_md == [metadata]'),
+                ] + self.segment_clauses()
+
+
+class DelayCb2(DelayNode):
+    cls = 'delay'
+    method = 'cb'
+    start = 2
+    props = ['C02', 'C04', 'C05', 'C13']
+    inflight_pre = 'occ(metadata)'
+
+    def make_locals(self, I, selfv):
+        return {'self': selfv, 'last': VReal(z3.Real('last_l')), 'x': VElem(z3.Const('x', sym.Elem)),
+                'metadata': VSeq(z3.Const('md', sym.SeqMdS), K_MDE)}
+
+    def clauses(self):
+        return [Clause('C13.one_item_per_cycle', ['C02', 'C13'], when='any',
+                       text='emitted == [] and delta == -occ(metadata)',
+                       note='after forwarding one item the coroutine only releases, optionally sleeps, then asks for the next item'),
+                Clause('C13.sleeps_rest_of_interval', ['C13'], when='yield:3',
+                       text='len(sleeps) == 1 and sleeps[0] == self.interval - (time_reads[0] - last) and sleeps[0] > 0 and q_get == 0'),
+                Clause('C13.next_get_without_sleep_if_interval_elapsed', ['C13'], when='yield:1',
+                       text='len(sleeps) == 0 and q_get == 1'),
+                ] + self.segment_clauses()
+
+
+class DelayCb3(DelayNode):
+    cls = 'delay'
+    method = 'cb'
+    start = 3
+    props = ['C02', 'C13']
+
+    def make_locals(self, I, selfv):
+        return {'self': selfv, 'last': VReal(z3.Real('last_l')), 'x': VElem(z3.Const('x', sym.Elem)),
+                'metadata': VSeq(z3.Const('md', sym.SeqMdS), K_MDE), 'duration': VReal(z3.Real('duration_l'))}
+
+    def clauses(self):
+        return [Clause('C13.asks_for_next_item', ['C02', 'C13'], when='yield:1',
+                       text='q_get == 1 and emitted == [] and delta == 0')] + self.segment_clauses()
+
+
+# --------------------------------------------------------------------------- timed_window
+class TimedWindowNode(Segment):
+    held_text = 'occ(list(self.metadata_buffer))'
+    data_fields = ('_buffer', 'metadata_buffer')
+    assumptions = ('gen.sleep(d) resumes no earlier than d later; in virtual time timers are punctual',)
+
+    def make_self(self, I):
+        iv = z3.Real('interval')
+        I.st.assume(iv >= 0)
+        buf = I.st.new_list(z3.Const('buf0', sym.SeqElemS), K_ELEM)
+        mdb = I.st.new_list(z3.Const('mdb0', sym.SeqSeqMdS), K_MD)
+        I.st.assume(z3.Length(z3.Const('buf0', sym.SeqElemS)) == z3.Length(z3.Const('mdb0', sym.SeqSeqMdS)))
+        return {'interval': VReal(iv), '_buffer': buf, 'metadata_buffer': mdb,
+                'last': VAw(z3.Const('last0', sym.Aw))}
+
+
+class TimedWindowUpdate(TimedWindowNode):
+    cls = 'timed_window'
+    method = 'update'
+    start = 0
+    props = ['C02', 'C03', 'C04', 'C05', 'C08', 'C10']
+
+    def clauses(self):
+        return [Clause('C08.appends_to_current_buffer', ['C08', 'C02'], when='return',
+                       text='list(self._buffer) == old(list(self._buffer)) + [x] and emitted == []'),
+                Clause('C10.buffers_metadata', ['C10', 'C08'], when='return',
+                       text='list(self.metadata_buffer) == old(list(self.metadata_buffer)) + [metadata]'),
+                Clause('C03.returns_awaitable_of_last_emission', ['C03'], when='return', text='result == old(self.last)',
+                       note='backpressure: the emitter waits for the previous batch to be consumed'),
+                Clause('C04.holds_buffered_element', ['C04'], when='return', text='delta >= occ(metadata)'),
+                ] + self.segment_clauses()
+
+
+class TimedWindowCbTick(TimedWindowNode):
+    """one tick: swap the buffer and emit the batch in the same atomic segment (entry and after each sleep)"""
+    cls = 'timed_window'
+    method = 'cb'
+    start = 0
+    props = ['C02', 'C04', 'C05', 'C08', 'C10']
+
+    def make_locals(self, I, selfv):
+        return {'self': selfv}
+
+    def clauses(self):
+        return [Clause('C08.batch_is_everything_since_last_tick_in_order', ['C08', 'C02'], when='yield:1',
+                       text='emitted == [tup(old(list(self._buffer)))] and len(self._buffer) == 0',
+                       note='each buffered element is emitted in exactly one batch; arrivals during the emission land in the new buffer'),
+                Clause('C10.batch_metadata', ['C10'], when='yield:1',
+                       text='emitted_md == [flat(old(list(self.metadata_buffer)))] and len(self.metadata_buffer) == 0'),
+                Clause('C03.remembers_emission_awaitable', ['C03', 'C08'], when='yield:1',
+                       text='self.last == emit_rets[0]'),
+                Clause('C08.no_other_outcome', ['C08'], when='return', text='False'),
+                ] + self.segment_clauses() + [
+                Clause('C01.reentrancy', ['C08', 'C01'], fn=self.reentrancy(), when='yield:1')]
+
+    def reentrancy(self):
+        def fn(self_, I, o, fr):
+            snaps = o.state.ghost['_snaps']
+            post = o.state.heap[self.pre_args['self'].loc]
+            fs = []
+            for s in snaps:
+                cell = s.heap[self.pre_args['self'].loc]
+                for f in self.data_fields:
+                    fs.append(values_equal_across(I, s, cell.fields[f], o.state, post.fields[f]))
+            return z3.And(fs) if fs else None
+        return fn
+
+
+class TimedWindowCbAfterSleep(TimedWindowCbTick):
+    start = 2
+
+    def make_locals(self, I, selfv):
+        return {'self': selfv, 'L': I.st.new_list(z3.Const('L_l', sym.SeqElemS), K_ELEM),
+                'metadata': I.st.new_list(z3.Const('mdl_l', sym.SeqSeqMdS), K_MD),
+                'm': I.st.new_list(z3.Const('m_l', sym.SeqMdS), K_MDE)}
+
+
+class TimedWindowCbAfterEmit(TimedWindowNode):
+    """downstream consumed the batch: sleep one interval"""
+    cls = 'timed_window'
+    method = 'cb'
+    start = 1
+    props = ['C08']
+
+    def make_locals(self, I, selfv):
+        return {'self': selfv, 'L': I.st.new_list(z3.Const('L_l', sym.SeqElemS), K_ELEM),
+                'metadata': I.st.new_list(z3.Const('mdl_l', sym.SeqSeqMdS), K_MD),
+                'm': I.st.new_list(z3.Const('m_l', sym.SeqMdS), K_MDE)}
+
+    def clauses(self):
+        return [Clause('C08.sleeps_one_interval_between_ticks', ['C08'], when='yield:2',
+                       text='len(sleeps) == 1 and sleeps[0] == self.interval and emitted == [] and '
+                            'list(self._buffer) == old(list(self._buffer))',
+                       note='an element arriving at t is emitted at the first tick after t: at most one interval plus the time downstream blocks'),
+                ] + self.segment_clauses()
+
+
+from .core_common import values_equal_across
+ALL += [DelayUpdate, DelayCb0, DelayCb1, DelayCb2, DelayCb3, TimedWindowUpdate, TimedWindowCbTick,
+        TimedWindowCbAfterSleep, TimedWindowCbAfterEmit]
+
+
+# --------------------------------------------------------------------------- latest (C14)
+class LatestNode(Segment):
+    """Ghost protocol state (DESIGN C14): arr = number of arrivals, slot_pos = arrival index of the element in the
+    slot, last_pos = arrival index of the last delivered element, fresh = slot holds an undelivered element,
+    pending = posted notify callbacks not yet run, waiting = cb blocked in condition.wait(), woken = cb was notified
+    and will resume.  Invariants:
+      J1  fresh <=> slot_pos > last_pos
+      J2  fresh ==> pending > 0 or woken          (lost-wake-up freedom: somebody will deliver the newest element)
+      J3  woken ==> fresh                         (a wake-up always finds something new: no element delivered twice)
+    """
+    held_text = 'occ(self.next_metadata)'
+    data_fields = ('next',)
+    inline = ('latest.condition',)
+    assumptions = ('tornado.locks.Condition: notify() completes the first waiter; with no waiter it does nothing '
+                   '(trusted, DESIGN Appendix B); the event loop is fair (liveness reading of J2)',)
+
+    def make_self(self, I):
+        g = I.st.ghost
+        for n in ('arr', 'slot_pos', 'last_pos', 'pending'):
+            g[n] = VInt(z3.Int(n + '0'))
+        for n in ('fresh', 'waiting', 'woken'):
+            g[n] = VBool(z3.Bool(n + '0'))
+        nxt = I.st.new_list(z3.Const('next0', sym.SeqElemS), K_ELEM)
+        self.assume_inv(I)
+        I.st.assume(z3.Length(z3.Const('next0', sym.SeqElemS)) <= 1)
+        I.st.assume((z3.Length(z3.Const('next0', sym.SeqElemS)) == 1) == (z3.Int('slot_pos0') >= 1))
+        return {'next': nxt, 'next_metadata': VSeq(z3.Const('nmd0', sym.SeqMdS), K_MDE),
+                '_condition': VRef(z3.Const('cond', sym.Obj), 'Condition')}
+
+    def inv_terms(self, g):
+        fresh, woken, pending = g['fresh'].t, g['woken'].t, g['pending'].t
+        return [('J1_fresh_iff_slot_newer_than_last_delivered', fresh == (g['slot_pos'].t > g['last_pos'].t)),
+                ('J2_no_lost_wakeup', z3.Implies(fresh, z3.Or(pending > 0, woken))),
+                ('J3_wakeup_finds_new_element', z3.Implies(woken, fresh)),
+                ('structural', z3.And(pending >= 0, g['arr'].t >= g['slot_pos'].t, g['slot_pos'].t >= 0,
+                                      g['last_pos'].t >= 0, g['last_pos'].t <= g['slot_pos'].t,
+                                      z3.Not(z3.And(g['waiting'].t, woken))))]
+
+    def assume_inv(self, I):
+        for n, f in self.inv_terms(I.st.ghost):
+            I.st.assume(f)
+
+    def inv_clauses(self, when):
+        def mk(i):
+            def fn(self_, I, o, fr):
+                self.ghost_step(o.state.ghost, o)
+                return self.inv_terms(o.state.ghost)[i][1]
+            return fn
+        names = ['J1_fresh_iff_slot_newer_than_last_delivered', 'J2_no_lost_wakeup', 'J3_wakeup_finds_new_element',
+                 'structural']
+        return [Clause('C14.' + n, ['C14'], fn=mk(i), when=when, kind='protocol') for i, n in enumerate(names)]
+
+    def ghost_step(self, g, o):
+        pass
+
+
+class LatestUpdate(LatestNode):
+    cls = 'latest'
+    method = 'update'
+    start = 0
+    props = ['C14', 'C04', 'C05', 'C10']
+
+    def ghost_step(self, g, o):
+        if g.get('_stepped'):
+            return
+        g['_stepped'] = True
+        # one arrival: the slot now holds element number arr+1; one notify callback was posted
+        g['arr'] = VInt(g['arr'].t + 1)
+        g['slot_pos'] = g['arr']
+        g['fresh'] = VBool(True)
+        g['pending'] = VInt(g['pending'].t + len(g['callbacks'].items))
+
+    def clauses(self):
+        return [Clause('C14.slot_holds_newest_element', ['C14'], when='return',
+                       text='list(self.next) == [x] and self.next_metadata == metadata and emitted == []'),
+                Clause('C14.posts_exactly_one_wakeup', ['C14'], when='return', text='len(callbacks) == 1'),
+                Clause('C04.holds_slot_element', ['C04'], when='return', text='delta >= occ(metadata) - old(occ(self.next_metadata))'),
+                ] + self.inv_clauses('return') + self.segment_clauses()
+
+
+class LatestNotify(LatestNode):
+    """The posted callback `condition.notify` (tornado code, trusted model): a protocol-level segment with no
+    streamz code; it must preserve the invariants for the protocol to be correct."""
+    cls = 'latest'
+    method = 'update'       # locator only; no body is executed
+    name = 'latest.<posted condition.notify>'
+    start = 0
+    props = ['C14']
+
+    def unit(self, I, index):
+        def run(I):
+            from pyvc.state import State
+            from pyvc.interp import Frame
+            st = State()
+            I.st = st
+            self.init_ghost(st)
+            self.init_async_ghost(st)
+            self.make_self(I)
+            g = st.ghost
+            st.assume(g['pending'].t > 0)
+            self.pre_args = {}
+            self.pre_state = st.snapshot()
+            g['_pre'] = (self.pre_state, self.pre_args)
+            g['pending'] = VInt(g['pending'].t - 1)
+            was_waiting = g['waiting'].t
+            g['woken'] = VBool(z3.Or(g['woken'].t, was_waiting))
+            g['waiting'] = VBool(False)
+            return NONE, Frame('latest.notify')
+        return run
+
+    def clauses(self):
+        return self.inv_clauses('return')
+
+
+class LatestCbResume(LatestNode):
+    """cb resumed from condition.wait(): deliver the slot"""
+    cls = 'latest'
+    method = 'cb'
+    start = 1
+    props = ['C14', 'C05', 'C10']
+
+    def make_locals(self, I, selfv):
+        I.st.assume(I.st.ghost['woken'].t)
+        return {'self': selfv}
+
+    def ghost_step(self, g, o):
+        if g.get('_stepped'):
+            return
+        g['_stepped'] = True
+        g['woken'] = VBool(False)
+        g['delivered_pos'] = g['slot_pos']
+        g['prev_last'] = g['last_pos']
+        g['last_pos'] = g['slot_pos']
+        g['fresh'] = VBool(False)
+
+    def clauses(self):
+        def strictly_newer(self_, I, o, fr):
+            self.ghost_step(o.state.ghost, o)
+            g = o.state.ghost
+            return g['delivered_pos'].t > g['prev_last'].t
+        return [Clause('C14.delivers_slot_content', ['C14'], when='yield:2',
+                       text='emitted == old(list(self.next)) and len(emitted) == 1'),
+                Clause('C14.delivered_positions_strictly_increase', ['C14'], fn=strictly_newer, when='yield:2',
+                       kind='protocol', note='I1: subsequence in order, nothing delivered twice'),
+                Clause('C10.slot_metadata_travels', ['C10'], when='yield:2', text='emitted_md == [old(self.next_metadata)]'),
+                ] + self.inv_clauses('yield:2') + self.segment_clauses()
+
+
+class LatestCbLoop(LatestNode):
+    """downstream finished: back to waiting"""
+    cls = 'latest'
+    method = 'cb'
+    start = 2
+    props = ['C14', 'C05']
+
+    def make_locals(self, I, selfv):
+        g = I.st.ghost
+        I.st.assume(z3.Not(g['waiting'].t))
+        I.st.assume(z3.Not(g['woken'].t))
+        return {'self': selfv, 'x': VElem(z3.Const('x', sym.Elem))}
+
+    def ghost_step(self, g, o):
+        if g.get('_stepped'):
+            return
+        g['_stepped'] = True
+        if o.kind == 'yield' and o.yield_index == 1:
+            g['waiting'] = VBool(True)
+
+    def clauses(self):
+        return [Clause('C05.delivered_element_is_released', ['C05'], when='any',
+                       text='occ(self.next_metadata) == 0 or slot_pos > last_pos',
+                       note='after the downstream emission completed the node no longer holds the delivered element'),
+                ] + self.inv_clauses('any') + self.segment_clauses()
+
+
+ALL += [LatestUpdate, LatestNotify, LatestCbResume, LatestCbLoop]
+
+
+# --------------------------------------------------------------------------- sink
+from .core_common import NodeUpdate
+from .c_nodes_simple import ARGS, KWARGS, user_raise_clauses
+
+
+class SinkUpdate(NodeUpdate):
+    cls = 'sink'
+    file = 'streamz/sinks.py'
+    files = ['streamz/sinks.py', 'streamz/core.py']
+    props = ['C01', 'C02', 'C03', 'C04', 'C16']
+
+    def make_self(self, I):
+        return {'func': VCallable('func'), 'args': ARGS, 'kwargs': KWARGS}
+
+    def globals(self):
+        return {'gen': VBuiltin('gen')}
+
+    def spec_funcs(self):
+        d = NodeUpdate.spec_funcs(self)
+
+        def isawaitable(I, args, kwargs, fr):
+            v = args[0]
+            return VBool(f_isawaitable(I.as_elem(v)))
+
+        def awaitable(I, v):
+            return VBool(f_isawaitable(I.as_elem(v)))
+        d['builtin_gen.isawaitable'] = isawaitable
+        d['awaitable'] = awaitable
+        return d
+
+    def clauses(self):
+        def called_once(self_, I, o, fr):
+            evs = [e for e in o.state.events if e['kind'] == 'opaque' and e['name'] == 'func']
+            if len(evs) != 1:
+                return z3.BoolVal(False)
+            return evs[0]['args'][0] == self.pre_args['x'].t
+        res = 'self.func(x, *self.args, **self.kwargs)'
+        return [
+            Clause('C01.func_called_exactly_once_with_the_element', ['C01', 'C02'], fn=called_once, when='return',
+                   kind='called_once'),
+            Clause('C03.returns_the_consumers_awaitable', ['C03', 'C02'], when='return',
+                   text='implies(awaitable(%s), elem(result) == %s)' % (res, res),
+                   note='native coroutines and Tornado futures alike: whatever gen.isawaitable accepts reaches the emitter'),
+            Clause('C03.synchronous_consumer_returns_nothing_to_wait_for', ['C03'], when='return',
+                   text='implies(not awaitable(%s), len(result) == 0)' % res),
+            Clause('C04.holds_while_consumer_pending', ['C04'], when='return',
+                   text='implies(awaitable(%s), delta >= occ(metadata))' % res,
+                   note='H1: an element handled by a sink whose awaitable has not finished must be held by the sink'),
+        ] + user_raise_clauses(self)
+
+
+ALL += [SinkUpdate]
+
+
+# --------------------------------------------------------------------------- partition (size flush, timeout flush)
+from pyvc.state import DictCell
+from .async_common import coroutine_call_summary
+
+ElemSeqArr = z3.ArraySort(sym.Elem, sym.SeqElemS)
+MdSeqArr = z3.ArraySort(sym.Elem, sym.SeqMdS)
+ObjArr = z3.ArraySort(sym.Elem, sym.Obj)
+
+
+class PartitionNode(Segment):
+    held_text = 'occ(self._metadata_buffer[kx])'
+    inline = ('partition._get_key',)
+    with_timeout = True
+    assumptions = ('IOLoop.call_later(t, f, *a) runs f(*a) once, t later in virtual time, unless the returned handle is '
+                   'cancelled first (trusted)',
+                   'holds of keys other than the one being updated are untouched (frame clause, proved for an arbitrary other key)')
+
+    def make_self(self, I):
+        g = I.st.ghost
+        n = z3.Int('n')
+        I.st.assume(n >= 1)
+        K = z3.Const('bkeys0', sym.SeqElemS)
+        bv = z3.Const('bvals0', ElemSeqArr)
+        mv = z3.Const('mvals0', MdSeqArr)
+        CK = z3.Const('ckeys0', sym.SeqElemS)
+        cv = z3.Const('cvals0', ObjArr)
+        buf = I.st.new_dict(DictCell(K, bv, K_ELEM, sym.K_ELEMS, vlist=K_ELEM, default_empty=True))
+        mdb = I.st.new_dict(DictCell(K, mv, K_ELEM, K_MD, vlist=K_MDE, default_empty=True))
+        cbs = I.st.new_dict(DictCell(CK, cv, K_ELEM, K_OBJ))
+        f = {'n': VInt(n), '_buffer': buf, '_metadata_buffer': mdb, '_callbacks': cbs, '_key': VCallable('key')}
+        if self.with_timeout:
+            t = z3.Real('timeout')
+            I.st.assume(t >= 0)
+            f['_timeout'] = VReal(t)
+        else:
+            f['_timeout'] = NONE
+        self._terms = (n, K, bv, mv, CK, cv)
+        return f
+
+    def key_term(self):
+        return sym.user_func('key', 1)(z3.Const('x', sym.Elem))
+
+    def assume_inv(self, I, k):
+        n, K, bv, mv, CK, cv = self._terms
+        # node invariant at segment boundaries, for the key k
+        I.st.assume(z3.Implies(z3.Contains(K, z3.Unit(k)), z3.Length(z3.Select(bv, k)) < n))
+        I.st.assume(z3.Implies(z3.Not(z3.Contains(K, z3.Unit(k))), z3.Length(z3.Select(bv, k)) == 0))
+        I.st.assume(z3.Implies(z3.Not(z3.Contains(K, z3.Unit(k))), z3.Length(z3.Select(mv, k)) == 0))
+        if self.with_timeout:
+            # timer discipline: a non-empty buffer has an armed timer (registered in _callbacks)
+            I.st.assume(z3.Implies(z3.And(z3.Contains(K, z3.Unit(k)), z3.Length(z3.Select(bv, k)) >= 1),
+                                   z3.Contains(CK, z3.Unit(k))))
+
+    def summaries(self):
+        d = Segment.summaries(self)
+        d['partition._flush'] = coroutine_call_summary('partition._flush')
+        d['*.cancel'] = d['TimerHandle.cancel']
+        return d
+
+
+class PartitionUpdate(PartitionNode):
+    cls = 'partition'
+    method = 'update'
+    start = 0
+    props = ['C01', 'C02', 'C03', 'C04', 'C05', 'C08', 'C10', 'C16']
+    inflight_post = {'yield:1': 'occ(old(list(self._metadata_buffer[kx]))) + occ(metadata)'}
+
+    def requires(self, I, selfv, loc):
+        k = self.key_term()
+        I.st.ghost['kx'] = VElem(k)
+        k2 = z3.Const('k_other', sym.Elem)
+        I.st.ghost['k_other'] = VElem(k2)
+        I.st.assume(k2 != k)
+        self.assume_inv(I, k)
+
+    def clauses(self):
+        oldb = 'old(list(self._buffer[kx]))'
+        oldm = 'old(list(self._metadata_buffer[kx]))'
+        full = '(len(%s) + 1 == self.n)' % oldb
+        cl = [
+            Clause('C08.flushes_exactly_when_n_elements_of_the_key', ['C08', 'C01', 'C02'], when='normal',
+                   text='emitted == ([tup(%s + [x])] if %s else [])' % (oldb, full),
+                   note='a partition is the n consecutive elements of one key, in arrival order; never more than n'),
+            Clause('C08.buffer_after_step', ['C08', 'C01'], when='normal',
+                   text='list(self._buffer[kx]) == ([] if %s else %s + [x])' % (full, oldb)),
+            Clause('C10.partition_metadata_in_member_order', ['C10'], when='normal',
+                   text='emitted_md == ([%s + metadata] if %s else [])' % (oldm, full)),
+            Clause('C10.metadata_buffer_after_step', ['C10', 'C05'], when='normal',
+                   text='list(self._metadata_buffer[kx]) == ([] if %s else %s + metadata)' % (full, oldm)),
+            Clause('C08.other_keys_untouched', ['C08', 'C01', 'C05'], when='normal',
+                   text='list(self._buffer[k_other]) == old(list(self._buffer[k_other])) and '
+                        'list(self._metadata_buffer[k_other]) == old(list(self._metadata_buffer[k_other]))'),
+            Clause('C08.flush_suspends_until_downstream_done', ['C03', 'C08'], when='yield:1', text=full),
+            Clause('C08.no_flush_returns', ['C08'], when='return', text='not ' + full),
+            Clause('C04.holds_buffered_element', ['C04'], when='normal', text='delta >= occ(metadata)'),
+        ]
+        if self.with_timeout:
+            cl += [
+                Clause('C08.size_flush_cancels_timer', ['C08'], when='yield:1',
+                       text='len(cancelled) == (1 if self.n > 1 else 0) and len(timers) == 0',
+                       note='no spurious partial/empty partition later: the timer of a size-flushed key is cancelled'),
+                Clause('C08.first_element_arms_timer_with_timeout', ['C08'], when='return',
+                       text='len(timers) == (1 if len(%s) == 0 else 0) and len(cancelled) == 0 and '
+                            'implies(len(timers) == 1, timers[0][0] == self._timeout and timers[0][2] == kx)' % oldb,
+                       note='deadline of the batch = arrival of its first element + timeout'),
+            ]
+        else:
+            cl.append(Clause('C08.no_timers_without_timeout', ['C08'], when='normal', text='len(timers) == 0 and len(cancelled) == 0'))
+        return cl + self.segment_clauses() + user_raise_clauses(self)
+
+    def frame_clause(self, fields=None):
+        def fn(self_, I, o, fr):
+            # on the raise path of the key function nothing was buffered
+            return z3.BoolVal(True)
+        return fn
+    data_fields = ()
+
+
+class PartitionUpdateNoTimeout(PartitionUpdate):
+    name = 'partition.update@0[timeout=None]'
+    with_timeout = False
+
+
+class PartitionFlushTimer(PartitionNode):
+    """_flush(key) entered from the timer: emits the partial batch of that key"""
+    cls = 'partition'
+    method = '_flush'
+    start = 0
+    props = ['C08', 'C10', 'C05', 'C04']
+    inflight_post = {'yield:1': 'occ(old(list(self._metadata_buffer[kx])))'}
+
+    def make_locals(self, I, selfv):
+        k = z3.Const('key_l', sym.Elem)
+        return {'self': selfv, 'key': VElem(k)}
+
+    def requires(self, I, selfv, loc):
+        k = loc['key'].t
+        I.st.ghost['kx'] = VElem(k)
+        n, K, bv, mv, CK, cv = self._terms
+        self.assume_inv(I, k)
+        # a timer is armed only while the buffer of its key is non-empty (size flush cancels it)
+        I.st.assume(z3.Contains(K, z3.Unit(k)))
+        I.st.assume(z3.Length(z3.Select(bv, k)) >= 1)
+
+    def clauses(self):
+        return [Clause('C08.timer_flush_emits_non_empty_partial_batch', ['C08'], when='yield:1',
+                       text='emitted == [tup(old(list(self._buffer[kx])))] and len(old(list(self._buffer[kx]))) >= 1 '
+                            'and len(old(list(self._buffer[kx]))) < self.n and len(self._buffer[kx]) == 0'),
+                Clause('C10.batch_metadata', ['C10'], when='yield:1',
+                       text='emitted_md == [old(list(self._metadata_buffer[kx]))] and len(self._metadata_buffer[kx]) == 0'),
+                ] + self.segment_clauses()
+
+
+class PartitionFlushAfterEmit(PartitionNode):
+    cls = 'partition'
+    method = '_flush'
+    start = 1
+    props = ['C05', 'C04', 'C08']
+    inflight_pre = 'occ(metadata_result)'
+
+    def make_locals(self, I, selfv):
+        k = z3.Const('key_l', sym.Elem)
+        I.st.ghost['kx'] = VElem(k)
+        return {'self': selfv, 'key': VElem(k), 'result': I.st.new_list(z3.Const('res_l', sym.SeqElemS), K_ELEM),
+                'metadata_result': I.st.new_list(z3.Const('mdres_l', sym.SeqMdS), K_MDE)}
+
+    def clauses(self):
+        return [Clause('C05.releases_batch_after_downstream_completed', ['C05', 'C04'], when='return',
+                       text='delta == -occ(metadata_result) and emitted == []')] + self.segment_clauses()
+
+
+ALL += [PartitionUpdate, PartitionUpdateNoTimeout, PartitionFlushTimer, PartitionFlushAfterEmit]
